@@ -77,6 +77,16 @@ func c03Rules(tier string) []Rule {
 				`^mapupdate \$0\.remainingResources\[.*NodePoolLabelKey|^mapupdate \$0\.remainingResources\[\(\*state\.StateNode\)\.Labels\(\$1\)\["karpenter\.sh/nodepool"\]\] = utils/resources\.Subtract\(\$0\.remainingResources\[.*\], \(\*state\.StateNode\)\.Capacity\(\$1\)\)`, 1,
 				"existing nodes subtract StateNode.Capacity() from the pool headroom")
 		}},
+		// planned claims are charged with the worst case of the same quantity the filter compares and limits are expressed
+		// in: the instance types' Capacity (not allocatable), maximised per resource and subtracted from every remaining key
+		core.Custom{ID: "C03.PROV4", Kind: "PROV", Run: func(w *core.World, id string) []core.Result {
+			const sm = "sched.subtractMax"
+			rs := core.InstrPresent(w, id, "PROV", sm, `^store &local<\[1\]corev1\.ResourceList>\[0\] = \$1\[.*\]\.Capacity$`, 1, "each instance type contributes its Capacity")
+			rs = append(rs, core.InstrPresent(w, id, "PROV", sm, `^call utils/resources\.MaxResources\(phi\(nil\|append\(phi↺, …\[:\]\)\)\)$`, 1, "the worst case over all instance types is taken")...)
+			rs = append(rs, core.InstrPresent(w, id, "PROV", sm, `^call \(\*apim/api/resource\.Quantity\)\.Sub\(\(apim/api/resource\.Quantity\)\.DeepCopy\(next\(range\(…\)\)#2\), utils/resources\.MaxResources\(phi\(…\|…\)\)\[next\(range\(\$0\)\)#1\]\)$`, 1, "and subtracted from each remaining resource")...)
+			rs = append(rs, core.InstrPresent(w, id, "PROV", sm, `^mapupdate makemap<corev1\.ResourceList>\[next\(range\(\$0\)\)#1\] = \(apim/api/resource\.Quantity\)\.DeepCopy\(next\(range\(\$0\)\)#2\)$`, 1, "the result keeps every key of the remaining list")...)
+			return rs
+		}},
 		core.Custom{ID: "C03.CMP1", Kind: "ORD", Run: c03FilterCmp},
 		core.Custom{ID: "C03.SYM3", Kind: "SYM", Run: c03NodeKey},
 
